@@ -1139,11 +1139,13 @@ def stage_pieces(ctx, cov, failures, lines, expect, tmpdir):
     from ssh_audit.policy import Policy
     r = ctx.rng
     pool = EXOTIC + ['aes256-ctr', '3072', '0', '-1', '00', '1_2_3', '+', '-', '1 2', '\t8\n', '\x0b9', '\x1c9', '9\x1c', '\xa05', '４', '١٢']
-    for _ in range(ctx.scale(300, 6000)):
+    # (a private helper: when a refactoring renames or inlines it this unit-level stream is dropped; the error text is still compared end to end)
+    norm_fn = getattr(Policy, '_normalize_error_field', None)
+    for _ in range(ctx.scale(300, 6000) if norm_fn is not None else 0):
         l = [r.choice(pool) for _ in range(r.choice([0, 1, 1, 1, 2, 3]))]
         lines.append('policyaudit.norm %s' % tstrs(l))
-        expect.append(('norm', '%s' % (Policy._normalize_error_field(list(l)),), l))
-    for _ in range(ctx.scale(120, 2500)):
+        expect.append(('norm', '%s' % (norm_fn(list(l)),), l))
+    for _ in range(ctx.scale(120, 2500) if hasattr(Policy, '_get_errors') else 0):
         sub = r.random() < 0.5
         errs = []
         for _ in range(r.choice([0, 1, 2, 3, 5])):
